@@ -14,7 +14,8 @@ RULE = ("Cases: a traditional (3-9 windows), azimuthal (1-4 azimuths x 2-6 windo
         "reject more than the window mask), matching recordings, drawn boolean plotting options and distributions, and one of "
         "the functions plot_single_panel_hvsr_curves, plot_seismic_recordings_3c, plot_pre_and_post_rejection, "
         "summarize_hvsr_statistics, plot_azimuthal_contour_2d / _3d, plot_azimuthal_summary (Agg backend, figures closed after "
-        "each case). Non-trivial = at least one rejected window or peak exists; distinct by SHA-1 of the case.")
+        "each case). Non-trivial = at least one rejected window or peak exists; distinct by SHA-1 of the case."
+        ' For azimuthal results one member may be refined alone (own search range, e.g. holding only a common second bump).')
 ASSUMPTIONS = [
     "what is drawn is read from the matplotlib artists of the returned axes (line data, styles taken from the module's DEFAULT_KWARGS), not from pixels",
     "hvsrpy.postprocessing.display is replaced inside the harness process to capture the summary Styler",
